@@ -26,6 +26,10 @@ VERIF = T.VERIF
 EVID = os.path.join(VERIF, "evidence")
 REPLAYS = os.path.join(VERIF, "replays")
 KNOWN = os.path.join(VERIF, "known_findings.json")
+if os.path.realpath(os.environ.get("VERIF_REPO", "/repo")) != "/repo":
+    # a run against a scratch copy (seeded change): its evidence and replay files must not replace those of /repo
+    EVID = os.path.join(T.WORK, "scratch_evidence")
+    REPLAYS = os.path.join(T.WORK, "scratch_replays")
 
 
 def load_known(prop):
@@ -60,7 +64,9 @@ def _replay_chunk(chunk):
     classes = {}
     n = 0
     calls = 0
+    from . import absarr
     for scn in chunk:
+        absarr.WARM = bool(scn.get("warm", False)) if isinstance(scn, dict) else False
         try:
             r = _check.replay(scn)
         except Exception:
@@ -70,6 +76,8 @@ def _replay_chunk(chunk):
         calls += r.get("calls", 0)
         for v in r.get("violations", []):
             v["scenario"] = scn
+            if absarr.WARM:
+                v["variant"] = str(v.get("variant", "")) + " warm-caches"
             if r.get("machinery"):
                 v["machinery"] = True
             out.append(v)
@@ -79,6 +87,8 @@ def _replay_chunk(chunk):
 
 
 def replay_all(modname, scenarios, procs=16, chunk=200):
+    # every other scenario is replayed on operands whose caches have been warmed (absarr.WARM); a replay file carries the flag
+    scenarios = [(dict(s, warm=(k % 2 == 1)) if isinstance(s, dict) and "warm" not in s else s) for k, s in enumerate(scenarios)]
     chunks = [scenarios[i:i + chunk] for i in range(0, len(scenarios), chunk)]
     viol, classes, n, calls = [], {}, 0, 0
     if not chunks:
